@@ -183,6 +183,10 @@ def judge(ev):
     if ev.obs.ro is None:
         return []
     fails = check(ev.obs.ro)
+    if 'history' in ev.case:
+        # Story objects kept from the previous state of this history describe their element as it is now
+        from checks import c17
+        fails += [f for f in c17.check_kept(ev.obs.ro, PROP) if f.sig.startswith('C15|')]
     if ev.obs.msg is not None:
         fails += check_message_objects(ev.obs.msg)
         if type(ev.obs.msg).__name__ == 'RunningOrderReplace':
